@@ -259,7 +259,7 @@ cdef class DefaultRecordBatch:
             self, Py_ssize_t pos, Py_ssize_t size) except -1:
         """ Confirm that the slice is not outside buffer range
         """
-        if pos + size > self._buffer.len:
+        if size < 0 or size > self._buffer.len - pos:
             raise CorruptRecordException(
                 "Can't read {} bytes from pos {}".format(size, pos))
 
